@@ -148,7 +148,13 @@ def ob_characterize(ctx):
     G = generic_class(st, role, enzyme)
     r = ctx.mk.seq("r", n, "ACGT")
     unique_at_zero(ctx, G.structure(), r, n)
-    rec = st.record.CircularRecord(st.Seq(r), id="rec")
+    data = r
+    if "lo" in P:
+        # the same plasmid filed at another origin (the structure, a site or an overhang may straddle it)
+        from .c01 import rot
+
+        data = rot(r, P["lo"] + ctx.mk.pick("rho", P["hi"] - P["lo"]))
+    rec = st.record.CircularRecord(st.Seq(data), id="rec")
     cands = list(B.__subclasses__())
     if not is_abstract(B):
         cands.append(B)
@@ -250,6 +256,13 @@ def obligations(tier, seed):
         obs.append(Ob("characterize concrete class with narrower subtypes %s n=%d" % (role, F + 1), ob_characterize,
                       dict(src="user", role=role, enzyme="BsaI", n=F + 1, concrete_base=True), samples=4, cost=4 * (F + 1) ** 3,
                       expect_witness=("none-accepts", "some-accepts")))
+    n = fixed_letters(generic_class(st, "module", "BsaI").structure()) + 1
+    step = (n + 3) // 4
+    for lo in range(0, n, step):
+        hi = min(n, lo + step)
+        obs.append(Ob("characterize user family module n=%d filed at origin %d..%d" % (n, lo, hi - 1), ob_characterize,
+                      dict(src="user", role="module", enzyme="BsaI", n=n, lo=lo, hi=hi), samples=4, cost=4 * n ** 3,
+                      group="characterize at every origin"))
     for fresh in ("leaf", "late"):
         role = "module"
         F = fixed_letters(generic_class(st, role, "BsaI").structure())
